@@ -46,11 +46,16 @@ FIXED = [
  ("C30","query-no-snapshot","reading a block after a directory rename","a query overlapping a write-out returned rows with wrong column content (e.g. sip = the dip value): ReadBlockAtIndex's close+reopen recovery returned the buffers of already-read columns to the pool"),
  ("C24","partial-day-with-gap-before-last-block-treated-as-complete","a day with a gap before","merge classified a source day {00:00,00:05,00:10,13:00} as complete (block duration inferred from the last two blocks); with --overwrite it replaced a partial destination day and lost its blocks"),
  ("C24","dryrun-creates-destination-root","a merge dry run does not create","MergeDatabases with DryRun created a missing destination directory and a stage directory inside it"),
+ ("C25","leftover-listed-as-interface:*","hidden directories in the database root","after a kill during a merge the staging directory '.gpdb-merge-stage-*' was listed (and queried) as an interface"),
+ ("C25","neither-before-nor-after:unlink@backup","the leftover backup of an interrupted","after a kill while the backup of a replaced day was being removed, queries returned the day's old and new rows together (the backup directory name parses as the same day) and every later merge failed with 'duplicate day timestamp'"),
+ ("C29","live-rows-not-grouped:reduced-key:*","live query results are grouped","a live query of any type other than sip,dip,dport,proto returned the same group several times: in-memory flows kept their full key while stored flows are keyed by the query attributes"),
+ ("C26","shared-key-rows-overwritten-not-summed","CSV rows sharing interface","two CSV rows with the same interface, timestamp and key were both reported as imported but only the last one was stored (Set instead of SetOrUpdate)"),
 ]
 
 KNOWN = [
  ("C10","canon-rejected:host-word","a condition whose VALUE is a resolvable host name spelled like an operator word (e.g. 'sip = eq and dport = 80' with a host named 'eq') is accepted, but its canonical string 'sip = eq & dport = 80' is rejected when prepared again, because the sanitiser rewrites ' eq ' in free text. Needs a token-aware sanitiser; not repaired."),
  ("C04","inconsistent:rename:daydir->daydir:listing-disagrees","a kill between the two commit steps of a write-out (rename of .blockmeta, then rename of the day directory to its new metadata suffix) leaves the directory suffix with the totals of the previous state: queries show the new block, the interface listing (which trusts the suffix) does not count it, until the next write-out to that day. The two renames cannot be made atomic without changing the on-disk layout; not repaired."),
+ ("C29","live-query-error:memory-only","a live query for an interface that is being captured but has no directory in the database yet (until its first write-out) fails with 'no interfaces provided' instead of returning the in-memory flows: the interface argument is resolved against the database only. Needs the lister to be unioned with the capture manager's interfaces and the work manager to tolerate a missing directory; not repaired."),
  ("C05","error-but-damaged:rename:daydir->daydir:*:query-rows","if the final rename of the day directory (metadata suffix update) fails, DBWriter.Write returns the error although the block was already committed by the preceding .blockmeta rename: the database then holds one block more than 'the previously committed data'. Same two-step commit as the C04 finding; not repaired."),
 ]
 
